@@ -77,7 +77,22 @@ def replay_calc(case):
             out.append(dict(what='the same Derive objects embedded in a larger formula', got=got_big, want=want_big))
         if not close(float(sim['dx'][0]), case['dx'], rel=1e-9) or not close(float(sim['db'][0]), case['db'], rel=1e-9):
             out.append(dict(what='the same Derive objects simulated next to other formulas', got=[float(sim['dx'][0]), float(sim['db'][0])], want=[case['dx'], case['db']]))
-        return dict(mismatches=out, n=5)
+        # next to draws: a draw variable whose series is constantly 1 is a constant factor, so the derivative below or
+        # above the Monte-Carlo operator is the same derivative (the named element keeps its meaning when the formula
+        # also contains draws)
+        import numpy as np
+
+        d.set_random_number_generators({'ONES': (lambda sample_size, number_of_draws: np.ones((sample_size, number_of_draws)), 'constant series')})
+        for nm, want_ in (('x', case['dx']), ('b', case['db'])):
+            b3 = ex.Beta('b', float(case['b']), None, None, 0)
+            f3 = (case['a'] * b3 * b3 + case['c'] * b3 * ex.Variable('x') + case['d'] * ex.Variable('x')) * ex.bioDraws('one_draw', 'ONES')
+            below = float(ex.MonteCarlo(ex.Derive(f3, nm)).get_value_c(database=d, number_of_draws=3, prepare_ids=True)[0])
+            b4 = ex.Beta('b', float(case['b']), None, None, 0)
+            f4 = (case['a'] * b4 * b4 + case['c'] * b4 * ex.Variable('x') + case['d'] * ex.Variable('x')) * ex.bioDraws('one_draw', 'ONES')
+            above = float(ex.Derive(ex.MonteCarlo(f4), nm).get_value_c(database=d, number_of_draws=3, prepare_ids=True)[0])
+            if not close(below, want_, rel=1e-9) or not close(above, want_, rel=1e-9):
+                out.append(dict(what=f'Derive with respect to {nm} in a formula that also contains draws', got=[below, above], want=want_))
+        return dict(mismatches=out, n=9)
     om = ex.RandomVariable('omega')
     p = case['p']
     poly = p[0] + p[1] * om + p[2] * om * om + p[3] * om * om * om + p[4] * om * om * om * om
